@@ -55,6 +55,22 @@ impl Handler for AdjacentOverloadSignaturesHandler {
     check(module.body, ctx);
   }
 
+  fn block_stmt(
+    &mut self,
+    block_stmt: &ast_view::BlockStmt,
+    ctx: &mut Context,
+  ) {
+    check(block_stmt.stmts, ctx);
+  }
+
+  fn switch_case(
+    &mut self,
+    switch_case: &ast_view::SwitchCase,
+    ctx: &mut Context,
+  ) {
+    check(switch_case.cons, ctx);
+  }
+
   fn ts_module_block(
     &mut self,
     ts_module_block: &ast_view::TsModuleBlock,
